@@ -317,3 +317,34 @@ func EnvStructPtrMixed(vals map[string]*m.Val, nilName string) interface{} {
 	}
 	return s.Interface()
 }
+
+// EnvMapMixedRows is EnvMap, except that every binding that is a slice of structs with two or
+// more fields becomes a []interface{} whose element i is a struct of ANOTHER Go type: the same
+// fields (same tags), declared in an order rotated by i. The yae types are the same as EnvMap's.
+// mixed reports whether any binding was rebuilt.
+func EnvMapMixedRows(vals map[string]*m.Val) (out map[string]interface{}, mixed bool, ok bool) {
+	out, ok = EnvMap(vals)
+	if !ok {
+		return nil, false, false
+	}
+	for n, x := range out {
+		rv := reflect.ValueOf(x)
+		if rv.Kind() != reflect.Slice || rv.Type().Elem().Kind() != reflect.Struct || rv.Type().Elem() == timeType || rv.Type().Elem().NumField() < 2 || rv.Len() < 2 {
+			continue
+		}
+		et := rv.Type().Elem()
+		rows := make([]interface{}, rv.Len())
+		for i := 0; i < rv.Len(); i++ {
+			k := et.NumField()
+			fs := make([]reflect.StructField, k)
+			for j := 0; j < k; j++ {
+				f := et.Field((j + i) % k)
+				fs[j] = reflect.StructField{Name: fmt.Sprintf("G%d", j), Type: f.Type, Tag: f.Tag}
+			}
+			rows[i] = coerce(rv.Index(i), reflect.StructOf(fs)).Interface()
+		}
+		out[n] = rows
+		mixed = true
+	}
+	return out, mixed, true
+}
